@@ -225,6 +225,13 @@ func main() {
 	}
 	wg.Wait()
 
+	njobs := 0
+	for _, b := range batches {
+		njobs += len(b.Jobs)
+	}
+	if und := run.Counter("undecided_scenarios"); und > int64(njobs/1000+2) {
+		run.Inconclusive(fmt.Sprintf("%d of %d scenarios were left undecided by watchdogs or lost connections (see undecided_example_* in the evidence)", und, njobs))
+	}
 	if _, replaying := vk.ReplayInput(); !replaying {
 		for _, k := range kinds {
 			run.FloorCounter("performed:"+k.name, 1)
@@ -249,7 +256,8 @@ func main() {
 		run.FloorCounter("streams_closed_on_unpresent", 1)
 		run.FloorCounter("random_steps_judged", 50)
 	}
-	run.Assume("logical quiescence = three consecutive ping/pong barrier rounds over every live client of the scenario deliver no event; watchdogs give inconclusive, never a violation")
+	run.Assume("logical quiescence = four barrier rounds through every member's FIFO action queue (a numbered 'setdata' by the helper operator, echoed to every member as 'joined change') followed by a ping/pong per connection; the only timer in the path, the 200 ms delay before a new stream is announced, is waited for explicitly")
+	run.Assume("watchdogs (90 s) never give a violation: a scenario they interrupt is undecided; up to 2 + 0.1% undecided scenarios are tolerated (the server drops a connection whose socket write does not complete within 500 ms, which happens on an overloaded machine), more make the run inconclusive")
 	run.Assume("raw permission arrays in a group file grant exactly the listed permissions; role names grant what galene.md documents (op: everything but admin, incl. record when allow-recording; present: present+message; message; observe: nothing; caption)")
 	run.Assume("the stateful token store is read through token.List/token.Get in the server process; the harness serialises its own token operations with those it asks the server to perform")
 	run.Assume("offers carry a real pion SDP without candidates: whether publishing was performed is read from the actor's reply (answer vs abort), media never flows")
@@ -261,7 +269,7 @@ func plan(run *vk.Run) []batchArgs {
 	var safe, random []job
 	n := 0
 	next := func() int { n++; return n }
-	rounds := run.Pick(1, 20)
+	rounds := run.Pick(2, 40)
 	for round := 0; round < rounds; round++ {
 		for _, k := range kinds {
 			for _, ps := range permSets() {
@@ -272,22 +280,22 @@ func plan(run *vk.Run) []batchArgs {
 			}
 		}
 	}
-	for i := 0; i < run.Pick(24, 2000); i++ {
+	for i := 0; i < run.Pick(60, 4000); i++ {
 		safe = append(safe, job{T: "deleg", I: next()})
 	}
-	for i := 0; i < run.Pick(16, 1000); i++ {
+	for i := 0; i < run.Pick(40, 2000); i++ {
 		safe = append(safe, job{T: "xgroup", I: next()})
 	}
-	for i := 0; i < run.Pick(30, 3000); i++ {
+	for i := 0; i < run.Pick(90, 6000); i++ {
 		safe = append(safe, job{T: "revoke", I: next()})
 	}
-	for i := 0; i < run.Pick(24, 3000); i++ {
+	for i := 0; i < run.Pick(60, 6000); i++ {
 		safe = append(safe, job{T: "race", I: next()})
 	}
-	for i := 0; i < run.Pick(16, 1200); i++ {
+	for i := 0; i < run.Pick(40, 2400); i++ {
 		safe = append(safe, job{T: "whip", I: next()})
 	}
-	for i := 0; i < run.Pick(400, 70000); i++ {
+	for i := 0; i < run.Pick(1500, 150000); i++ {
 		random = append(random, job{T: "random", I: next(), Len: 15})
 	}
 
@@ -317,7 +325,7 @@ func plan(run *vk.Run) []batchArgs {
 			idx++
 		}
 	}
-	cut("matrix", safe, run.Pick(110, 260), 16)
-	cut("random", random, run.Pick(50, 100), 12)
+	cut("matrix", safe, run.Pick(150, 300), 16)
+	cut("random", random, run.Pick(100, 250), 12)
 	return out
 }
